@@ -15,14 +15,24 @@ R1  reciprocal constants (constant folding over exact rationals): for every
     includes METERS_TO_FL · FL_TO_METERS); one flight level is 100 ft.
 R2  no extrapolation (also C02-R10, C17-R6; positive controls).  On every path
     from evaluate() down: each output of the returned Performance is the result
-    of scipy `interpn` with bounds checking left on (no bounds_error=False /
-    fill_value), linear, over the grid attribute and the value-table attribute
-    of one and the same interpolator object, one table per output; the query
-    point's altitude component is the state's altitude times a constant and its
-    mass component the state's mass or the table's own extreme mass -- no
-    min/max/clip/round in between, whichever function each piece sits in; no
-    routine that answers outside its data (np.interp, np.clip, interp1d, ...)
-    is called on the path.
+    of a table look-up that refuses a point outside its grid, linear, over the
+    grid attribute and the value-table attribute of one and the same
+    interpolator object, one table per output; the query point's altitude
+    component is the state's altitude times a constant and its mass component
+    the state's mass or the table's own extreme mass -- no min/max/clip/round in
+    between, whichever function each piece sits in; no routine that answers
+    outside its data (np.interp, np.clip, griddata, ...) is called on the path.
+    A look-up is scipy `interpn(grid, values, point)` or the call of a scipy
+    interpolator object (`RegularGridInterpolator`, `interp1d`) built over
+    (grid, values) on the path, or kept by the constructor of the interpolator
+    in an attribute / dict or tuple element / built on first use, over one
+    table or over np.stack([tables], axis=-1) with the output picking its
+    component: all are read as the same interpn call (lower_lookup).  Whether a
+    routine refuses is scipy's documented behaviour: interpn and
+    RegularGridInterpolator raise unless bounds_error is given and not True
+    (fill_value alone changes nothing), interp1d raises unless bounds_error is
+    false or fill_value='extrapolate'; LinearNDInterpolator,
+    NearestNDInterpolator, interp2d, RectBivariateSpline never refuse.
 R3  load-time validation.  (a) a validator of the model builds the performance
     table on every path, outside any try/except, and keeps it where evaluate()
     reads it; (b) every normal path through the table's initialisation has
@@ -271,16 +281,27 @@ def simp(n: ast.expr) -> ast.expr:
 
 
 class Event:
-    __slots__ = ('kind', 'fi', 'node', 'name', 'value', 'args', 'kwargs', 'target', 'pc', 'prot', 'loops', 'self_val', 'cls')
+    __slots__ = ('kind', 'fi', 'node', 'name', 'value', 'args', 'kwargs', 'target', 'pc', 'prot', 'loops', 'self_val', 'cls',
+                 'via', 'site')
 
     def __init__(self, kind, fr, node, st, **kw):
         self.kind, self.fi, self.node = kind, fr.fi, node
         self.pc, self.prot, self.loops = st.pc, st.prot, st.loops
         self.self_val = fr.self_val
         self.name = self.value = self.target = self.cls = None
+        self.via = self.site = None     # set on a look-up written with a prebuilt interpolator object (see lower_lookup)
         self.args, self.kwargs = [], {}
         for k, v in kw.items():
             setattr(self, k, v)
+
+    def like(self, **kw):
+        """a copy of this event with some fields replaced"""
+        v = Event.__new__(Event)
+        for s in Event.__slots__:
+            setattr(v, s, getattr(self, s, None))
+        for k, x in kw.items():
+            setattr(v, k, x)
+        return v
 
     @property
     def line(self):
@@ -362,6 +383,9 @@ class Engine:
         # resolution of *source* nodes does not depend on the engine instance: shared over the program
         self._class_cache: dict = prog.__dict__.setdefault('_c06_class_cache', {})
         self._resolve_cache: dict = prog.__dict__.setdefault('_c06_resolve_cache', {})
+        # the loader's rename recovery (globalnorm R) respells an identifier everywhere; the name of something
+        # *outside* the repository is what the source says, so external names are read with the rename undone
+        self._written = {old: new for new, old in ((getattr(prog, 'globalnorm', None) or {}).get('renamed') or {}).items()}
         self.n = 0
 
     # ---------------------------------------------------------------- entry
@@ -516,8 +540,14 @@ class Engine:
         head, _, rest = d.partition('.')
         imp = fr.fi.module.imports.get(head)
         if imp:
-            return imp + ('.' + rest if rest else '')
+            return self.as_written(imp + ('.' + rest if rest else ''))
         return d
+
+    def as_written(self, ext: str | None) -> str | None:
+        """dotted name of an external callee as the source spells it (rename recovery undone, see __init__)"""
+        if not ext or not self._written or ext.startswith('.'):
+            return ext
+        return '.'.join(self._written.get(c, c) for c in ext.split('.'))
 
     # ---------------------------------------------------------------- expressions
     def ev(self, e: ast.expr, st: St, fr: Fr, raises: list) -> list:
@@ -815,6 +845,15 @@ class Engine:
     def _call(self, c: ast.Call, st, fr, raises):
         f = c.func
         out = []
+        if isinstance(f, ast.Name) and f.id in ('tuple', 'list') and f.id not in st.env and len(c.args) == 1 and not c.keywords \
+                and isinstance(c.args[0], ast.GeneratorExp):
+            # tuple(f(x) for x in <literal table>) is the display of its elements, like the list comprehension
+            g = c.args[0]
+            rs: list = []
+            res = self.ev(ast.copy_location(ast.ListComp(elt=g.elt, generators=g.generators), g), st, fr, rs)
+            if res and all(isinstance(v, ast.List) for v, _ in res):
+                raises.extend(rs)
+                return [((ast.Tuple if f.id == 'tuple' else ast.List)(elts=list(v.elts), ctx=ast.Load()), s) for v, s in res]
         # receiver / callee value
         recv_paths = [(None, st)]
         if isinstance(f, ast.Attribute):
@@ -901,7 +940,7 @@ class Engine:
             return [(val, st)]
         name = None
         if isinstance(f, ast.Name):
-            name = None if f.id in st.env else (fr.fi.module.imports.get(f.id) or f.id)
+            name = None if f.id in st.env else (self.as_written(fr.fi.module.imports.get(f.id)) or f.id)
         elif isinstance(f, ast.Attribute):
             d = dotted_name(f)
             name = self.ext_name(fr, f) if d and d.split('.')[0] in fr.fi.module.imports and d.split('.')[0] not in st.env \
@@ -1690,10 +1729,23 @@ def _unwrap_scalar(e):
 
 
 def _point_elements(e):
-    """components of a query point written as a tuple / list / np.array([...]) / np.asarray((...))"""
-    while isinstance(e, ast.Call) and dotted_name(e.func) in ('np.array', 'np.asarray', 'numpy.array', 'numpy.asarray',
-                                                             'np.atleast_1d', 'tuple', 'list') and len(e.args) >= 1:
-        e = e.args[0]
+    """components of a query point written as a tuple / list / np.array([...]) / np.asarray((...)), also when it is
+    packed as a batch of one point ([[fl, mass]], np.atleast_2d(...), x[None, :], x.reshape(1, -1))"""
+    while True:
+        if isinstance(e, ast.Call) and dotted_name(e.func) in ('np.array', 'np.asarray', 'numpy.array', 'numpy.asarray', 'np.atleast_1d',
+                                                               'np.atleast_2d', 'numpy.atleast_1d', 'numpy.atleast_2d', 'tuple', 'list') \
+                and len(e.args) >= 1 and all(k.arg in ('dtype', 'copy') for k in e.keywords):
+            e = e.args[0]
+        elif isinstance(e, ast.Call) and isinstance(e.func, ast.Attribute) and e.func.attr == 'reshape' \
+                and canon(ast.Tuple(elts=list(e.args), ctx=ast.Load())) in ('(1, -1)', '((1, -1),)') and not e.keywords:
+            e = e.func.value
+        elif isinstance(e, ast.Subscript) and canon(e.slice) in ('None', 'np.newaxis', '(None, :)', '(np.newaxis, :)', '(None, ...)',
+                                                                '(np.newaxis, ...)'):
+            e = e.value
+        elif isinstance(e, (ast.Tuple, ast.List)) and len(e.elts) == 1 and isinstance(e.elts[0], (ast.Tuple, ast.List)):
+            e = e.elts[0]           # a batch of one point
+        else:
+            break
     if isinstance(e, (ast.Tuple, ast.List)) and not any(isinstance(x, ast.Starred) for x in e.elts):
         return list(e.elts)
     return None
@@ -1809,6 +1861,218 @@ def _coefficient(nf, atom: str):
 
 
 # ======================================================================================================
+# One form for every table look-up: interpn(grid, values, point, method, bounds policy)
+# ======================================================================================================
+# scipy's object interfaces to the same interpolation.  A look-up `obj(point)` on an object built as
+# `Routine(grid, values, ...)` -- on the path, or kept in an attribute (a dict / tuple element of an attribute) by the
+# constructor of the object whose method makes the look-up -- is read as interpn(grid, values, point) with the
+# routine's method and bounds policy, so that every rule below sees one form.  What each routine does with a point
+# outside its data is scipy's documented behaviour (oracle), decided by bounds_policy().
+#   constructor parameters in positional order; which of them hold grid / values / method / bounds_error / fill_value
+OBJECT_ROUTINES = {
+    'scipy.interpolate.RegularGridInterpolator': ('points', 'values', 'method', 'bounds_error', 'fill_value'),
+    'scipy.interpolate.interp1d': ('x', 'y', 'kind', 'axis', 'copy', 'bounds_error', 'fill_value', 'assume_sorted'),
+}
+ROLE_OF_PARAM = {'points': 'grid', 'x': 'grid', 'values': 'values', 'y': 'values', 'method': 'method', 'kind': 'method',
+                 'bounds_error': 'bounds_error', 'fill_value': 'fill_value'}
+# object routines that have no refusing mode at all
+NEVER_REFUSE = ('scipy.interpolate.LinearNDInterpolator', 'scipy.interpolate.NearestNDInterpolator', 'scipy.interpolate.interp2d',
+                'scipy.interpolate.RectBivariateSpline', 'scipy.interpolate.CloughTocher2DInterpolator')
+
+
+def bounds_policy(routine: str, be, fv):
+    """(refuses, text).  refuses is True when the routine raises for a point outside its data, False when it answers
+    (text says with what), None when the arguments do not tell.
+    interpn / RegularGridInterpolator: raise iff bounds_error is True, which is the default; fill_value is not looked
+    at while they raise.  interp1d: bounds_error=None (default) raises unless fill_value == 'extrapolate';
+    True raises; False fills."""
+    is_true = isinstance(be, ast.Constant) and be.value is True
+    fvt = f', fill_value={canon(fv)[:30]}' if fv is not None else ''
+    if routine.endswith('.interp1d'):
+        if be is None or (isinstance(be, ast.Constant) and be.value is None):
+            if fv is None or isinstance(fv, (ast.Tuple, ast.List)) or (isinstance(fv, ast.Constant) and not isinstance(fv.value, str)) \
+                    or canon(fv) in ('np.nan', 'numpy.nan', 'math.nan', "float('nan')"):
+                return True, ''
+            if isinstance(fv, ast.Constant) and fv.value == 'extrapolate':
+                return False, "fill_value='extrapolate': a state outside the table is extrapolated instead of refused"
+            return None, f'cannot tell whether fill_value={canon(fv)[:30]} asks interp1d to extrapolate'
+        if is_true:
+            return True, ''
+        return False, f'bounds_error={canon(be)[:40]}{fvt}: a state outside the table is answered with the fill value (NaN by default) instead of refused'
+    if be is None or is_true:
+        return True, ''
+    return False, f'bounds_error={canon(be)[:40]}{fvt}: a state outside the grid is extrapolated / filled (NaN by default) instead of refused'
+
+
+def _peel(e):
+    """(core, chain): the expression inside float(x) / x.item() / np.asarray(x) / x.squeeze() ... and the constant
+    integer indices applied to it on the way out, innermost first"""
+    chain = []
+    while True:
+        if isinstance(e, ast.Call) and isinstance(e.func, ast.Name) and e.func.id in ('float',) and len(e.args) == 1 and not e.keywords:
+            e = e.args[0]
+        elif isinstance(e, ast.Call) and isinstance(e.func, ast.Attribute) and e.func.attr in ('item', 'squeeze', 'ravel', 'flatten', 'tolist') \
+                and not e.args:
+            e = e.func.value
+        elif isinstance(e, ast.Call) and dotted_name(e.func) in ('np.float64', 'numpy.float64', 'np.asarray', 'np.squeeze', 'np.ravel') \
+                and len(e.args) == 1:
+            e = e.args[0]
+        elif isinstance(e, ast.Subscript) and isinstance(const_value(e.slice), int) and not isinstance(const_value(e.slice), bool):
+            chain.insert(0, const_value(e.slice))
+            e = e.value
+        elif isinstance(e, ast.Subscript) and isinstance(e.slice, ast.Tuple) and all(
+                isinstance(const_value(x), int) and not isinstance(const_value(x), bool) or isinstance(x, ast.Constant) and x.value is Ellipsis
+                for x in e.slice.elts):
+            chain[0:0] = [const_value(x) for x in e.slice.elts if not (isinstance(x, ast.Constant) and x.value is Ellipsis)]
+            e = e.value
+        else:
+            return e, chain
+
+
+def _stacked(v):
+    """the tables of np.stack([a, b, c], axis=-1): one interpolation answers for all of them, component k of the
+    answer's last axis belongs to table k"""
+    if isinstance(v, ast.Call) and dotted_name(v.func) in ('np.stack', 'numpy.stack') and v.args \
+            and isinstance(v.args[0], (ast.List, ast.Tuple)) and not any(isinstance(x, ast.Starred) for x in v.args[0].elts):
+        ax = v.args[1] if len(v.args) > 1 else kwarg(v, 'axis')
+        if ax is not None and const_value(ax) == -1 and len(v.args) <= 2 and all(k.arg == 'axis' for k in v.keywords):
+            return list(v.args[0].elts)
+    return None
+
+
+def _ctor_paths(prog, cls):
+    """normal paths through the constructor of cls, fields left symbolic (not read back), cached on the program"""
+    cache = prog.__dict__.setdefault('_c06_ctor_paths', {})
+    key = (cls.module.relpath, cls.name)
+    if key not in cache:
+        init = cls.find_method('__init__') or cls.find_method('__post_init__')
+        res = None
+        if init is not None:
+            try:
+                res = [st for k, v, st in Engine(prog, read_back=False).run(init, self_cls=cls) if k == 'return']
+            except Undecided:
+                res = None
+        cache[key] = res
+    return cache[key]
+
+
+def lower_lookup(prog, e, st, chain=None, siblings=()):
+    """(event, why).  The look-up call event e of path st as an interpn event (see the section head): e itself when
+    it is interpn; a copy with name / args / kwargs of the equivalent interpn call, `via` the routine and `site` the
+    place the object was built, when e calls a prebuilt interpolator object; an event named after the routine when
+    that routine never refuses.  `chain` are the indices applied to the result: over stacked value tables the last one
+    selects the table (chain None: the caller does not care which).  `siblings`: the other paths of the same run; an
+    attribute the constructor leaves empty and a sibling path fills (built on first use) holds what that path stores.
+    (e, why) with a reason when e is no look-up the function can read."""
+    if e.kind != 'call' or not isinstance(e.value, ast.Call):
+        return e, None
+    if e.name == INTERPN:
+        if any(k.startswith('**') for k in e.kwargs) or any(isinstance(a, ast.Starred) for a in e.args):
+            return e, None
+        names = ('points', 'values', 'xi', 'method', 'bounds_error', 'fill_value')
+        kw = {n: e.arg(i, n) for i, n in enumerate(names) if e.arg(i, n) is not None}
+        return _select_table(e.like(args=[kw.pop('points', None), kw.pop('values', None), kw.pop('xi', None)], kwargs=kw), chain)
+    func = e.value.func
+    if len(e.args) != 1 or e.kwargs:
+        return e, None
+    built = []              # (routine, constructor call in terms of the interpolator object, (function, line))
+    if isinstance(func, ast.Call):
+        cev = next((x for x in st.events if x.kind == 'call' and canon(x.value) == canon(func)), None)
+        if cev is None or not (cev.name in OBJECT_ROUTINES or cev.name in NEVER_REFUSE):
+            return e, None
+        built.append((cev.name, func, (cev.fi, cev.line)))
+    else:
+        I, base, key = e.self_val, func, None
+        if isinstance(base, ast.Subscript):
+            base, key = base.value, base.slice
+        if I is None or e.fi.cls is None or not (isinstance(base, ast.Attribute) and canon(base.value) == canon(I)):
+            return e, None
+        paths = _ctor_paths(prog, e.fi.cls)
+        if not paths:
+            return e, None
+
+        class Sub(ast.NodeTransformer):
+            def visit_Name(self, n):
+                return clone(I) if n.id == 'self' else n
+        for ist in paths:
+            val = ist.heap.get(f'self.{base.attr}')
+            if val is not None and key is not None:
+                val = simp(ast.Subscript(value=val, slice=key, ctx=ast.Load()))
+            if val is None or (isinstance(val, ast.Constant) and val.value is None):
+                # left empty by the constructor: filled on first use by a path of this run?
+                late = [(x, s2) for s2 in siblings for x in s2.events
+                        if x.kind == 'store' and canon(x.target) == canon(func) and isinstance(x.value, ast.Call)]
+                for x, s2 in late:
+                    cev = next((y for y in s2.events if y.kind == 'call' and canon(y.value) == canon(x.value)), None)
+                    if cev is None or not (cev.name in OBJECT_ROUTINES or cev.name in NEVER_REFUSE):
+                        return e, None
+                    if not any(canon(x.value) == canon(b[1]) for b in built):
+                        built.append((cev.name, x.value, (cev.fi, cev.line)))
+                if not late:
+                    return e, None
+                continue
+            if not isinstance(val, ast.Call):
+                return e, f'`{canon(func)[-40:]}` is not an interpolator object built by the constructor'
+            cev = next((x for x in ist.events if x.kind == 'call' and canon(x.value) == canon(val)), None)
+            if cev is None or not (cev.name in OBJECT_ROUTINES or cev.name in NEVER_REFUSE):
+                return e, None
+            # the object keeps the arrays it was given: they must be complete when it is built
+            used = {n.attr for n in ast.walk(val) if isinstance(n, ast.Attribute) and canon(n.value) == 'self'}
+            after = ist.events[ist.events.index(cev) + 1:]
+            late = next((x for x in after if x.kind == 'store' and any(
+                canon(x.target) == f'self.{a}' or canon(x.target).startswith(f'self.{a}[') for a in used)), None)
+            if late is not None:
+                return e, f'the constructor writes `{canon(late.target)[:40]}` after the interpolator object over it is built'
+            sv = Sub().visit(clone(val))
+            if not any(canon(sv) == canon(b[1]) for b in built):
+                built.append((cev.name, sv, (cev.fi, cev.line)))
+    lowered = []
+    for routine, call, site in built:
+        if routine in NEVER_REFUSE:
+            return e.like(name=routine, fi=site[0], node=ast.Pass(lineno=site[1]), site=site, via=routine), None
+        if any(k.arg is None for k in call.keywords) or any(isinstance(a, ast.Starred) for a in call.args):
+            return e, f'{routine.rsplit(".", 1)[-1]} built with unpacked arguments'
+        params = OBJECT_ROUTINES[routine]
+        given = dict(zip(params, call.args))
+        given.update({k.arg: k.value for k in call.keywords})
+        roles = {ROLE_OF_PARAM[p]: v for p, v in given.items() if p in ROLE_OF_PARAM}
+        if 'axis' in given and const_value(given['axis']) != -1:
+            return e, 'interp1d along an explicit axis is not read'
+        grid = roles.get('grid')
+        if routine.endswith('.interp1d') and grid is not None:
+            # interp1d takes the one coordinate array itself: the grid it stands for is the 1-tuple holding it
+            grid = grid.value if isinstance(grid, ast.Subscript) and const_value(grid.slice) == 0 else ast.Tuple(elts=[grid], ctx=ast.Load())
+        kw = {k: roles[k] for k in ('method', 'bounds_error', 'fill_value') if k in roles}
+        xi = e.args[0]
+        if routine.endswith('.interp1d') and _point_elements(xi) is None:
+            xi = ast.Tuple(elts=[xi], ctx=ast.Load())           # ... and is asked at the one coordinate itself
+        lowered.append(e.like(name=INTERPN, args=[grid, roles.get('values'), xi], kwargs=kw, via=routine, site=site))
+    # several constructor paths may build the object differently: one that does not refuse is the finding;
+    # otherwise they must agree on what is interpolated
+    for v in lowered:
+        if bounds_policy(v.via, v.kwargs.get('bounds_error'), v.kwargs.get('fill_value'))[0] is False:
+            return _select_table(v, chain)
+    if len({(canon(v.args[0]), canon(v.args[1]), canon(v.kwargs.get('method'))) for v in lowered}) != 1:
+        return e, 'the constructor builds the interpolator object over different arrays on different paths'
+    return _select_table(lowered[0], chain)
+
+
+def _select_table(v, chain):
+    """v with the stacked value tables replaced by the one the index chain selects; all other indices only unpack a
+    batch of one"""
+    tables = _stacked(v.args[1]) if v.args[1] is not None else None
+    if chain is None:
+        return v, None
+    if tables is None:
+        if any(i not in (0, -1) for i in chain):
+            return None, None           # element other than the first of a one-point answer: not an interpolation result
+        return v, None
+    if not chain or any(i not in (0, -1) for i in chain[:-1]) or not -len(tables) <= chain[-1] < len(tables):
+        return v, 'cannot tell which of the stacked tables the output reads'
+    return v.like(args=[v.args[0], tables[chain[-1]], v.args[2]]), None
+
+
+# ======================================================================================================
 # The evaluate path, end to end
 # ======================================================================================================
 class EvalPath:
@@ -1817,7 +2081,8 @@ class EvalPath:
     def __init__(self, kind, value, st):
         self.kind, self.value, self.st = kind, value, st
         self.outputs = {}        # Performance field -> value expression
-        self.interp = {}         # Performance field -> Event of the interpn call that produces it (or None)
+        self.interp = {}         # Performance field -> Event of the look-up that produces it, as interpn (lower_lookup), or None
+        self.why = {}            # Performance field -> why its look-up could not be read as interpn
 
 
 def evaluate_paths(ctx):
@@ -1853,8 +2118,11 @@ def evaluate_paths(ctx):
             p.outputs = vals
             calls = {canon(e.value): e for e in st.events if e.kind == 'call'}
             for f, v in vals.items():
-                core = _unwrap_scalar(v)
-                p.interp[f] = calls.get(canon(core)) if isinstance(core, ast.Call) else None
+                core, chain = _peel(v)
+                e = calls.get(canon(core)) if isinstance(core, ast.Call) else None
+                if e is not None:
+                    e, p.why[f] = lower_lookup(prog, e, st, chain, siblings=[s2 for _, _, s2 in outs])
+                p.interp[f] = e
         paths.append(p)
     res = (eng, model, ev, paths, fields)
     prog.__dict__['_c06_eval'] = res
@@ -1891,6 +2159,8 @@ def rule_no_extrapolation(ctx):
             if v is None:
                 ctx.undecided('C06-R2', evf, f, 'output field not set')
             core = _unwrap_scalar(v)
+            if e is not None and not isinstance(core, ast.Call):
+                core = _peel(v)[0]          # a component of what some call returned: the call is what is not understood
             if e is None or e.name != INTERPN:
                 nm = e.name if e is not None else None
                 ext = [x for x in p.st.events if x.kind == 'call' and x.name in CLAMPING and canon(x.value) in canon(v)]
@@ -1902,30 +2172,33 @@ def rule_no_extrapolation(ctx):
                 seen.add(key)
                 short = canon(core)[:70]
                 if nm in CLAMPING:
+                    n_ok += 1       # a look-up, if an unsound one
                     ctx.ob('C06-R2', where, f'{f} = {nm.replace("numpy.", "np.")}(…) on the evaluate path', False,
                            f'{nm} {CLAMPING[nm]}: a state outside the table is answered with an edge / fill value '
                            'instead of being refused', line=e.line)
-                elif isinstance(core, ast.Call):
-                    ctx.undecided('C06-R2', where, short, f'{f} is produced by a call the rule does not know to be bounds-checked')
+                elif isinstance(core, ast.Call) or p.why.get(f):
+                    ctx.undecided('C06-R2', where, short, p.why.get(f) or f'{f} is produced by a call the rule does not know to be bounds-checked')
                 else:
                     ctx.ob('C06-R2', where, f'{f} = {short}', False, f'{f} is not the result of an interpolation in the table',
                            line=getattr(p.value, 'lineno', 0) or evf.node.lineno)
                 continue
+            if p.why.get(f):
+                ctx.undecided('C06-R2', where, canon(e.value)[:80], p.why[f])
+            if any(k.startswith('**') for k in e.kwargs) or any(isinstance(a, ast.Starred) for a in e.args):
+                ctx.undecided('C06-R2', where, canon(e.value)[:80], 'interpn called with unpacked arguments')
             grid, vals, xi = e.arg(0, 'points'), e.arg(1, 'values'), e.arg(2, 'xi')
             I = e.self_val
             problems = []
-            be, fv, meth = e.kwargs.get('bounds_error'), e.kwargs.get('fill_value'), e.arg(3, 'method')
-            if len(e.args) > 4:
-                be = e.args[4]
-            if len(e.args) > 5:
-                fv = e.args[5]
-            if be is not None and not (isinstance(be, ast.Constant) and be.value is True):
-                problems.append(f'bounds_error={canon(be)}' + (f', fill_value={canon(fv)}' if fv is not None else '')
-                                + ': a state outside the grid is extrapolated / filled instead of refused')
+            be, fv, meth = e.kwargs.get('bounds_error'), e.kwargs.get('fill_value'), e.kwargs.get('method')
+            routine = (e.via or INTERPN).rsplit('.', 1)[-1]
+            built = f'{routine} built in {e.site[0].qualname} (line {int(e.site[1])}) with ' if e.site is not None else ''
+            refuses, how = bounds_policy(e.via or INTERPN, be, fv)
+            if refuses is None:
+                ctx.undecided('C06-R2', where, canon(e.value)[:80], how)
+            if not refuses:
+                problems.append(built + how)
             if meth is not None and not (isinstance(meth, ast.Constant) and meth.value == 'linear'):
-                problems.append(f'method={canon(meth)} is not linear interpolation')
-            if any(k.startswith('**') for k in e.kwargs) or any(isinstance(a, ast.Starred) for a in e.args):
-                ctx.undecided('C06-R2', where, canon(e.value)[:80], 'interpn called with unpacked arguments')
+                problems.append(built + f'method={canon(meth)} is not linear interpolation')
             own = I is not None and isinstance(grid, ast.Attribute) and isinstance(vals, ast.Attribute) \
                 and canon(grid.value) == canon(I) and canon(vals.value) == canon(I)
             if not own and not problems:
@@ -1937,12 +2210,15 @@ def rule_no_extrapolation(ctx):
                 continue
             seen.add(key)
             ok = not problems
-            n_ok += ok
-            what = f'{f} = interpn(<interpolator>.{grid.attr}, <interpolator>.{vals.attr}, query)' if own else f'{f} = {canon(e.value)[:60]}'
+            n_ok += 1           # a recognised table look-up, sound or not: the floor guards against seeing none
+            what = f'{f} = {canon(e.value)[:60]}'
+            if own:
+                what = f'{f} = interpn(<interpolator>.{grid.attr}, <interpolator>.{vals.attr}, query)' if e.via is None else \
+                    f'{f} = {routine}(<interpolator>.{grid.attr}, <interpolator>.{vals.attr})(query)'
             ctx.ob('C06-R2', where, what, ok,
                    'bounds checking left on (raise outside the grid), linear, over the interpolator\'s own grid and table' if ok
                    else '; '.join(problems), line=e.line)
-    ctx.floor('C06-R2', n_ok, 3, 'outputs produced by bounds-checked interpn on the evaluate path')
+    ctx.floor('C06-R2', n_ok, 3, 'outputs produced by a table look-up (interpn or equivalent) on the evaluate path')
     # ---- the three outputs use one grid attribute and three different tables
     grids, tables = set(), {}
     for p in rets:
@@ -2000,6 +2276,12 @@ def rule_no_extrapolation(ctx):
                 seen.add(key)
                 if any(canon(e.value) in canon(v) for q in rets for v in q.outputs.values()):
                     continue            # reported with the output it produces
+                if e.name in OBJECT_ROUTINES:
+                    # building the object answers nothing; asked later it refuses or not as it was built
+                    given = dict(zip(OBJECT_ROUTINES[e.name], e.args))
+                    given.update(e.kwargs)
+                    if any(k.startswith('**') for k in e.kwargs) or bounds_policy(e.name, given.get('bounds_error'), given.get('fill_value'))[0]:
+                        continue
                 ctx.ob('C06-R2', e.fi, f'{e.name.replace("numpy.", "np.")}(…) on the evaluate path', False,
                        f'{e.name} {CLAMPING[e.name]}', line=e.line)
     # positive controls: the recognisers see the forbidden forms in an embedded example
@@ -2009,6 +2291,11 @@ def rule_no_extrapolation(ctx):
     ctx.control('C06-R2', 'numpy.interp' in CLAMPING and Engine(prog).ext_name(
         Fr(evf, None, None, ()), ast.parse('np.interp(fl, fls, values)').body[0].value.func) in ('numpy.interp', 'np.interp'),
         'embedded np.interp(...) is recognised')
+    rgi, i1d = 'scipy.interpolate.RegularGridInterpolator', 'scipy.interpolate.interp1d'
+    ctx.control('C06-R2', bounds_policy(rgi, _const(False), None)[0] is False and bounds_policy(rgi, None, _const(0.0))[0] is True
+                and bounds_policy(i1d, None, _const('extrapolate'))[0] is False and bounds_policy(i1d, None, None)[0] is True,
+                'embedded RegularGridInterpolator(bounds_error=False) / interp1d(fill_value="extrapolate") are read as not refusing, '
+                'their defaults as refusing')
 
 
 def _altitude_component(e, consts):
@@ -2815,7 +3102,9 @@ def rule_layout(ctx):
     except Undecided as ex:
         ctx.undecided('C06-R7', ic, '__call__', str(ex))
     for k, v, st in couts:
-        ev = next((e for e in st.events if e.kind == 'call' and e.name == INTERPN), None)
+        ev = next((low for e in st.events if e.kind == 'call'
+                   for low in [lower_lookup(prog, e, st, siblings=[s2 for _, _, s2 in couts])[0]]
+                   if low is not None and low.name == INTERPN), None)
         if ev is None:
             continue
         comps = _point_elements(ev.arg(2, 'xi'))
@@ -3309,5 +3598,6 @@ def run(ctx):
     rule_ptf(ctx)
     rule_layout(ctx)
     ctx.note('exact reciprocals still leave a 1-ulp float residue at some levels; that residue is outside what a constants rule decides')
-    ctx.assumptions += ['scipy.interpolate.interpn raises for points outside the grid unless bounds_error=False',
+    ctx.assumptions += ['scipy.interpolate.interpn / RegularGridInterpolator raise for points outside the grid unless bounds_error is '
+                        'given and false; interp1d raises unless bounds_error is false or fill_value="extrapolate"',
                         'node exactness / boundedness / continuity of linear interpolation are scipy numerics (not decided)']
